@@ -64,13 +64,16 @@ func resolveAT(r *core.Run, rule string) *atWorld {
 	// the function that holds the protocol steps: under Commit, the deepest function of the package from which both
 	// the registration and the flush are reached (helpers it calls are analysed in its context, so extracting the
 	// flush or the failure handling into methods of their own does not move the anchor)
+	// (.. and the commit of the target transaction: a part that only prepares — registers and flushes — is a
+	// helper of the step function, not the step function)
 	flushReach := newReach(w, 3, a.flush)
+	commitReach := newReach(w, 4, isDriverTxCommit)
 	var cands []*core.FuncInfo
 	for _, f := range append(reachFrom(w, []*core.FuncInfo{a.commit}, pDSSQL), a.commit) {
 		if f.Pkg.PkgPath != pDSSQL || w.IsTestFile(f.Decl.Pos()) {
 			continue
 		}
-		if flushReach.Hits(f.Obj) && a.reg.Hits(f.Obj) && !a.flush(f.Obj) && !isBranchRegister(w, f.Obj) {
+		if flushReach.Hits(f.Obj) && a.reg.Hits(f.Obj) && commitReach.Hits(f.Obj) && !a.flush(f.Obj) && !isBranchRegister(w, f.Obj) {
 			cands = append(cands, f)
 		}
 	}
@@ -196,7 +199,21 @@ func checkC02(r *core.Run) {
 	// In AT mode sql.Tx always wraps a real target transaction; only the XA connection stores nil
 	// (checked below: withOriginTx(nil) appears only under the XAMode test). The nil-target branches of
 	// Tx.Rollback / commitOnLocal are therefore infeasible on the AT path.
-	atTargetNonNil := func(pkg *packages.Package, cond ast.Expr, branch bool) []flow.Tag {
+	var atTargetNonNil func(pkg *packages.Package, cond ast.Expr, branch bool) []flow.Tag
+	atTargetNonNil = func(pkg *packages.Package, cond ast.Expr, branch bool) []flow.Tag {
+		// (the test written as a predicate of the type: `if !tx.hasLocalTx()` with `return tx.target != nil`)
+		c0 := ast.Unparen(cond)
+		if u, isNot := c0.(*ast.UnaryExpr); isNot && u.Op == token.NOT {
+			return atTargetNonNil(pkg, u.X, !branch)
+		}
+		if call, isCall := c0.(*ast.CallExpr); isCall {
+			if h := w.Info(core.Callee(pkg.TypesInfo, call)); h != nil && h.Pkg.PkgPath == pDSSQL && h.Decl.Body != nil && len(h.Decl.Body.List) == 1 {
+				if rs, isRet := h.Decl.Body.List[0].(*ast.ReturnStmt); isRet && len(rs.Results) == 1 {
+					return atTargetNonNil(h.Pkg, rs.Results[0], branch)
+				}
+			}
+			return nil
+		}
 		be, ok := ast.Unparen(cond).(*ast.BinaryExpr)
 		if !ok || (be.Op != token.EQL && be.Op != token.NEQ) || !isNilIdent(pkg.TypesInfo, be.Y) {
 			return nil
@@ -244,7 +261,9 @@ func checkC02(r *core.Run) {
 		r.Fn(fn)
 		// (clean-up written as one deferred closure driven by flags and by the error being returned is followed per
 		// exit: DeferAtExit)
-		sp := &flow.Spec{W: w, Depth: 2, Classify: classify, NoDescend: noDesc, CondTags: atTargetNonNil, DeferAtExit: true}
+		// (four frames: the step function may be split into parts that call Tx.commitOnLocal / Tx.Rollback, which may
+		// share a helper that is handed the driver method to run)
+		sp := &flow.Spec{W: w, Depth: 2, Inline: 4, Classify: classify, NoDescend: noDesc, CondTags: atTargetNonNil, DeferAtExit: true}
 		res := sp.Analyze(fn)
 		nFlush, nCommit := 0, 0
 		for _, cp := range res.Calls {
@@ -295,7 +314,9 @@ func checkC02(r *core.Run) {
 				r.Check(okc, "C02.fail", key, pos, "failure surfaces as an error, nothing is committed afterwards, a registered branch is reported phase-one-failed",
 					"after a failed step this return either yields a nil error, commits anyway, or skips the phase-one-failed report")
 			}
-			ended := ex.St.HasAny("localcommit", "localrollback")
+			// ("ended": one or the other on every path to here — committed on the paths where the commit was issued,
+			// rolled back on the others)
+			ended := ex.St.HasAny("localcommit", "localrollback", "ended")
 			r.Check(ended, "C02.txclosed", key, pos, "the target transaction is committed or rolled back before returning",
 				"the AT Commit returns without committing or rolling back the target transaction: database/sql hands the connection back to the pool inside an open transaction")
 		}
